@@ -127,7 +127,7 @@ prop("C12", quick={"runs": 6000}, thorough={"runs": 100000000, "budget_s": 600},
      "EvictionNeeded scripts, EvictFraction in (0,1], three strategies; the real janitor/eviction runs as a scheduled task. Non-trivial: at least one cycle.",
      rules=["C12.R1 no trigger -> nothing removed", "C12.R2 amount (fraction / down to CountSoftLimit*(1-f) within one entry)",
             "C12.R3 max rank(removed) <= min rank(kept) under the strategy, ranks from the harness access log", "C12.R4 cache_evict equals entries removed"],
-     probes=["cycle_without_trigger", "cycle_count_breach", "cycle_eviction_needed", "order_checked", "long_expired_entry_purged_in_eviction_cycle"])
+     probes=["cycle_without_trigger", "cycle_count_breach", "cycle_eviction_needed", "order_checked", "long_expired_entry_purged_in_eviction_cycle", "overlapping_serves_of_one_key"])
 prop("C08", quick={"runs": 40000}, thorough={"runs": 100000000, "budget_s": 600},
      rule=BE_RULE + "2-16 client tasks issue 1-5 operations each over <= 4 keys (partly constructed hash collisions); in half of the runs the real "
      "janitor runs cleanup/eviction cycles concurrently. Histories (invoke/return event sequence numbers, batch operations expanded into one "
